@@ -46,6 +46,10 @@ func (r *RingBuffer) Close() {
 		r.buffer[i] = nil
 	}
 
+	// the buffer is now empty: realign the read position with the write position,
+	// otherwise data pushed after Close() is pulled in the wrong order.
+	r.readIndex = r.writeIndex
+
 	r.mutex.Unlock()
 	r.cond.Broadcast()
 }
